@@ -46,7 +46,11 @@ def make_case(rng):
         case["t9"] = t9
         cur.append(["Me_9", t9, "Measure"])
     nfix = 0
-    for _ in range(rng.randint(1, 4)):
+    focus = None
+    nclauses = rng.randint(1, 4)
+    it = 0
+    while it < nclauses or focus:
+        it += 1
         ids = [c for c in cur if c[2] == "Identifier"]
         non = [c for c in cur if c[2] != "Identifier"]
         kinds = ["filter", "calc", "calc"]
@@ -57,6 +61,12 @@ def make_case(rng):
             kinds.append("sub")
         k = rng.choice(kinds)
         operands = {c[0]: c[1] for c in cur if c[1] in MT}
+        if focus:
+            # the clause right after a swap/shift rename reads the re-used names
+            k = rng.choice(["filter", "calc", "calc", "sub"] if len(ids) >= 2 else ["filter", "calc"])
+            fo = {n: t for n, t in operands.items() if n in focus}
+            operands = fo or operands
+            focus = None
         g = exprgen.Gen(rng, operands)
         if k == "filter":
             case["clauses"].append(["filter", g.cond(rng.randint(1, 2))])
@@ -98,11 +108,13 @@ def make_case(rng):
                 if rng.random() < 0.5:
                     pairs = [[a[0], b[0]], [b[0], a[0]]]
                     a[0], b[0] = b[0], a[0]
+                    focus = {a[0], b[0]}
                 else:
                     fresh = f"Me_r{nfix}"
                     nfix += 1
                     pairs = [[a[0], b[0]], [b[0], fresh]]
                     a[0], b[0] = b[0], fresh
+                    focus = {a[0], b[0]}
                     if rng.random() < 0.5:
                         pairs.reverse()
             else:
